@@ -593,6 +593,8 @@ pub fn run(op: &str, a: &Args) -> Option<Outcome> {
         ["xpath", "deep"] => Some(crate::ops_seq::xpath_deep(arg(a, "doc"))),
         ["xpath", "deep_inproc"] => Some(crate::ops_seq::xpath_deep_inproc(arg(a, "doc"))),
         ["xpath", "corpus_repeat"] => Some(crate::ops_seq::xpath_corpus_repeat(arg(a, "doc").parse().unwrap_or(0), arg(a, "query"), arg(a, "expected"))),
+        ["dom", "edit_views"] | ["dom", "edit_views1"] => Some(crate::ops_order::dom_edit_views(arg(a, "steps"))),
+        ["dom", "edit_order"] | ["dom", "edit_order1"] => Some(crate::ops_order::dom_edit_order(arg(a, "steps"))),
         ["names", "accepted"] => Some(crate::ops_seq::names_accepted(arg(a, "position"), arg(a, "name"))),
         ["xpath", "union_algebra"] => Some(crate::ops_seq::xpath_union_algebra(arg(a, "a"), arg(a, "b"))),
         ["xpath", "ctx_series"] => Some(crate::ops_seq::xpath_ctx_series(arg(a, "first"), arg(a, "second"))),
@@ -795,6 +797,53 @@ pub fn grid(op: &str, limit: usize) -> (usize, Vec<(Args, Outcome)>) {
                 try_one(mk(&[("doc", d), ("query", q.as_str()), ("expected", e)]), &mut n, &mut bad);
             }
         }
+        ["dom", "edit_views1"] => {
+            // every single step, and every move / removal / creation followed by every step that moves, removes or creates
+            let singles = crate::ops_order::singles();
+            for o in &singles {
+                try_one(mk(&[("steps", o.as_str())]), &mut n, &mut bad);
+            }
+            for f in singles.iter().filter(|g| g.starts_with("A:") || g.starts_with("R:") || g.starts_with("N:")) {
+                for g in singles.iter().filter(|g| g.starts_with("A:") || g.starts_with("R:") || g.starts_with("N:")) {
+                    let two = format!("{};{}", f, g);
+                    try_one(mk(&[("steps", two.as_str())]), &mut n, &mut bad);
+                }
+            }
+        }
+        ["dom", "edit_views"] => {
+            let singles = crate::ops_order::singles();
+            for f in &singles {
+                try_one(mk(&[("steps", f.as_str())]), &mut n, &mut bad);
+                for g in &singles {
+                    let two = format!("{};{}", f, g);
+                    try_one(mk(&[("steps", two.as_str())]), &mut n, &mut bad);
+                }
+            }
+        }
+        ["dom", "edit_order1"] => {
+            // quick tier: every single step, and every removal / attribute edit / creation / move followed by every attribute edit or creation
+            let singles = crate::ops_order::singles();
+            for o in &singles {
+                try_one(mk(&[("steps", o.as_str())]), &mut n, &mut bad);
+            }
+            for f in crate::ops_order::openers() {
+                for g in singles.iter().filter(|g| g.starts_with("T:") || g.starts_with("N:") || g.starts_with("V:")) {
+                    let two = format!("{};{}", f, g);
+                    try_one(mk(&[("steps", two.as_str())]), &mut n, &mut bad);
+                }
+            }
+        }
+        ["dom", "edit_order"] => {
+            // thorough tier: every pair of steps, and the openers followed by every pair of an attribute edit / creation and any step
+            let singles = crate::ops_order::singles();
+            for f in &singles {
+                try_one(mk(&[("steps", f.as_str())]), &mut n, &mut bad);
+                for g in &singles {
+                    let two = format!("{};{}", f, g);
+                    try_one(mk(&[("steps", two.as_str())]), &mut n, &mut bad);
+                }
+            }
+        }
         ["names", "accepted"] => {
             for pos in ["element", "attribute", "pi", "entity"] {
                 for nm in crate::ops_seq::name_candidates() {
@@ -940,6 +989,11 @@ pub fn grid(op: &str, limit: usize) -> (usize, Vec<(Args, Outcome)>) {
                 let d = crate::ops_more::unescape_line(line);
                 try_one(mk(&[("doc", d.as_str())]), &mut n, &mut bad);
             }
+            // multi-byte text in every position (the corpora above are ASCII for the most part): a printer or checker that cuts a string
+            // at a byte offset panics on these
+            for d in crate::ops_more::multibyte_docs().iter().chain(crate::ops_more::roundtrip_enumerated().iter()) {
+                try_one(mk(&[("doc", d.as_str())]), &mut n, &mut bad);
+            }
         }
         ["info", "roundtrip"] => {
             for d in crate::ops_more::ROUNDTRIP_DOCS {
@@ -947,7 +1001,7 @@ pub fn grid(op: &str, limit: usize) -> (usize, Vec<(Args, Outcome)>) {
             }
             // enumerated: every attribute value and every content of up to three pieces (quotes, their character and entity references,
             // markup characters, the parts of "]]>", CDATA sections, comments) -- the shapes whose print needs the right delimiter or escape
-            for d in crate::ops_more::roundtrip_enumerated() {
+            for d in crate::ops_more::roundtrip_enumerated().iter().chain(crate::ops_more::multibyte_docs().iter()) {
                 try_one(mk(&[("doc", d.as_str())]), &mut n, &mut bad);
             }
         }
